@@ -220,7 +220,7 @@ SOLVER_FNS = ['solution_node.rs::next_solution', 'solution_node_and_or.rs::next_
 PROPS['C05'] = {
     'units': ['solver'],
     'functions': SOLVER_FNS,
-    'oracles': {'*': 'c05_reask'},
+    'oracles': {'*': 'c05_reask', '#programs': 'c05_prog'},
     'bounded': [('c05_reask', 'supplementary to the proof, and the source of witnesses: 26 queries (facts, rules, and / or, not, nested not, cut, time, print, comparison, count) over one program, asked through next_solution() and through solve() '
                               'until "no more" is reported, then asked four more times: no answer and no output may follow')],
     'not_covered': [
@@ -235,7 +235,7 @@ PROPS['C05'] = {
 PROPS['C02'] = {
     'units': ['solver'],
     'functions': SOLVER_FNS,
-    'oracles': {'*': 'c02_cut'},
+    'oracles': {'*': 'c02_cut', '#programs': 'c02_prog'},
     'bounded': [('c02_cut', 'supplementary to the proof, and the source of witnesses: 29 queries over a program of 45 clauses with cuts (cut then failure, cut in the first / a later clause, cut inside an alternative, cuts in nested calls, cut under not, recursion ended by a cut) - '
                             'the engine\'s answer sequence against a reference interpreter written from the statement (depth-first resolution; a cut that is backtracked into fails its clause; after a cut the call yields no answer beyond the one being derived)')],
     'not_covered': [
@@ -251,7 +251,7 @@ PROPS['C02'] = {
 PROPS['C03'] = {
     'units': ['solver'],
     'functions': SOLVER_FNS,
-    'oracles': {'*': 'c03_not'},
+    'oracles': {'*': 'c03_not', '#programs': 'c03_prog'},
     'bounded': [('c03_not', 'supplementary to the proof: 16 goals G under 5 prior bindings: `pre, not(G)` has exactly one answer when `pre, G` has none and none otherwise, the answer shows exactly the bindings made before not(), the goal after not() runs, and asking again after exhaustion gives nothing')],
     'not_covered': [
         'PROVED on the verbatim Not branch of next_solution (node heap, R15): not(G) answers with the bindings the node was created with (Rc::clone of its own substitution set - G\'s bindings cannot be visible); it answers exactly when the request to G\'s node returned None (ghost record at the call site, clause #not_iff); '
